@@ -7236,6 +7236,9 @@ pub(crate) fn eval(env: &mut Env, session: &Session) -> Result<Value, EvalError>
                 let return_ty = match Type::from_hint(return_hint, &env.types, &type_bindings) {
                     Ok(ty) => ty,
                     Err(e) => {
+                        // Put the return value back, so resuming
+                        // repeats this check.
+                        env.push_value(return_value.clone());
                         return Err(EvalError::Exception(ExceptionInfo {
                             position: err_pos,
                             message: ErrorMessage(vec![Text(e)]),
